@@ -14,11 +14,11 @@ import math
 
 import numpy as np
 
-from ..core import Unit, Skip, SolverRaised, logu, uni, choice
+from ..core import Unit, Skip, SolverRaised, logu, uni, choice, sgn
 from ..oracles import bisect_change
 
 RULE = ("random supersonic state pairs (M 1.5-8, flow angles +-15 deg incl. 0, unequal gammas, pressure/density ratios "
-        "over a decade), 72 polar angles per configuration plus located wave positions; configurations the solver "
+        "over a decade; every tenth pair with pressures equal to within 1e-8..1e-3: weak waves), 72 polar angles per configuration plus located wave positions; configurations the solver "
         "cannot solve raise and are counted.  distinct = (monitor, morphology+relation, case).")
 ASSUME = ["regions are identified from the returned fields themselves (constant states by equality with the far-field "
           "values, waves by bisection on polar angle)", "gamma of a point: bottom gamma below the slip line, top above"]
@@ -43,6 +43,11 @@ def gen(rng, i, tier):
     b, t = st(aB), st(aT)
     if i % 5 == 0:
         t[4] = b[4]
+    if i % 10 == 9:
+        # weak waves: star pressure within 1e-8 .. 1e-3 of the initial pressures (the classification of a wave as shock
+        # or fan is decided by which side of an initial pressure the star pressure lies)
+        t[0] = b[0] * (1.0 + sgn(rng) * 10.0 ** uni(rng, -8, -3))
+        t[3] = b[3]
     return dict(bottom_state=b, top_state=t)
 
 
@@ -102,9 +107,10 @@ def run(ctx, p):
         br = "%s %s %s" % ("bottom" if side == "B" else "top", "shock" if kind == "S" else "fan", ang0)
         if kind == "S":
             M1n2 = ((g0 + 1.0) * alpha + g0 - 1.0) / (2.0 * g0)
-            if M1n2 > M0 * M0 or M1n2 < 1:
+            if M1n2 > M0 * M0 or M1n2 < 1 - 1e-9:
                 ctx.observe("r2d.shock", name, False, branch="normal Mach number admissible " + br, measure=M1n2, detail=det)
                 continue
+            M1n2 = max(M1n2, 1.0)
             beta = math.asin(math.sqrt(M1n2) / M0)
             rr = (g0 + 1.0) * M1n2 / ((g0 - 1.0) * M1n2 + 2.0)
             delta = math.atan(2.0 / math.tan(beta) * (M1n2 - 1.0) / (M0 * M0 * (g0 + math.cos(2 * beta)) + 2.0))
